@@ -160,6 +160,13 @@ func (s *Store) DeleteRange(series string, min, max int64) int {
 	return n
 }
 
+// DeleteRange1 removes a single point of one field.
+func (s *Store) DeleteRange1(series, field string, ts int64) {
+	if m := s.data[series][field]; m != nil {
+		delete(m, ts)
+	}
+}
+
 // DeleteSeries removes the series entirely.
 func (s *Store) DeleteSeries(series string) { delete(s.data, series) }
 
